@@ -50,6 +50,13 @@ func checkC20(c c20Case) (Outcome, error) {
 		_ = os.MkdirAll(filepath.Join(cwd, "sub"), 0o755)
 		arg = filepath.Join("sub", "..", c.OutName)
 		want = filepath.Join(cwd, c.OutName)
+	case "symlink": // the requested directory already exists as a symbolic link to a directory (e.g. target/data kept on another volume)
+		want = filepath.Join(cwd, "real-"+c.OutName)
+		arg = c.OutName
+		_ = os.MkdirAll(want, 0o755)
+		if err := os.Symlink(want, filepath.Join(cwd, c.OutName)); err != nil {
+			return Outcome{Skip: "cannot create a symbolic link"}, nil
+		}
 	case "preexisting":
 		want = filepath.Join(cwd, c.OutName)
 		arg = c.OutName
@@ -114,7 +121,7 @@ func checkC20(c c20Case) (Outcome, error) {
 	var contents [][]byte
 	var stray []string
 	_ = filepath.Walk(cwd, func(p string, fi os.FileInfo, err error) error {
-		if err != nil || fi.IsDir() {
+		if err != nil || fi.IsDir() || fi.Mode()&os.ModeSymlink != 0 {
 			return nil
 		}
 		if expect[p] {
@@ -211,7 +218,7 @@ func genC20(t *rapid.T) c20Case {
 	default:
 		c.N = 8 * rapid.IntRange(1, 10000).Draw(t, "nbytes")
 	}
-	c.OutKind = rapid.SampledFrom([]string{"default", "relative", "nested", "absolute", "preexisting", "dotdot"}).Draw(t, "outkind")
+	c.OutKind = rapid.SampledFrom([]string{"default", "relative", "nested", "absolute", "preexisting", "dotdot", "symlink"}).Draw(t, "outkind")
 	c.OutName = rapid.StringMatching(`[a-zA-Z0-9_]{1,8}`).Draw(t, "outname")
 	if rapid.IntRange(0, 2).Draw(t, "odd_name") == 0 {
 		// directory names are data, not syntax: spaces, percent signs, dots, dashes, non-ASCII
